@@ -537,19 +537,52 @@ Fixpoint heads (quiet : bool) (pre : list (list (option event))) (ts : list (lis
   | (None :: t) :: r =>
       (if quiet then [(None, pre ++ (t :: r))] else []) ++ heads quiet (pre ++ [None :: t]) r
   end.
-Fixpoint explore (fuel : nat) (s : st) (threads : list (list (option event))) : list st :=
+Definition event_eqb (a b : event) : bool :=
+  match a, b with
+  | Close, Close | Drop, Drop | IceStop, IceStop | CreateChannel, CreateChannel => true
+  | Negotiate x, Negotiate y => Bool.eqb x y
+  | SigTo x, SigTo y => SignalingState_eqb x y
+  | CdcCheck x, CdcCheck y | CdcStore x, CdcStore y | CdcFinish x, CdcFinish y => Nat.eqb x y
+  | SenderEnter, SenderEnter | SenderPoll, SenderPoll | WindowOpens, WindowOpens | WindowFull, WindowFull => true
+  | IceUp, IceUp | IceDown, IceDown | IceFail, IceFail | SocketNone, SocketNone => true
+  | DtlsDone, DtlsDone | DtlsFail, DtlsFail | PeerCloseNotify, PeerCloseNotify => true
+  | SctpUp, SctpUp | SctpAbort, SctpAbort | SctpShutdown, SctpShutdown | SctpShutdownAck, SctpShutdownAck => true
+  | SctpShutdownComplete, SctpShutdownComplete | SctpHbTimeout, SctpHbTimeout | SctpInitTimeout, SctpInitTimeout => true
+  | SctpLoop, SctpLoop | ObsIce, ObsIce | ObsDtls, ObsDtls | ObsLoops, ObsLoops | ObsGrace, ObsGrace => true
+  | _, _ => false
+  end.
+Definition config : Set := (st * list (list (option event)))%type.
+Definition config_eqb (a b : config) : bool :=
+  st_eqb (fst a) (fst b) && list_eqb (list_eqb (opt_eqb event_eqb)) (snd a) (snd b).
+Fixpoint mem_config (c : config) (l : list config) : bool :=
+  match l with [] => false | x :: r => config_eqb c x || mem_config c r end.
+Fixpoint dedup (l : list config) (acc : list config) : list config :=
+  match l with
+  | [] => acc
+  | c :: r => if mem_config c acc then dedup r acc else dedup r (c :: acc)
+  end.
+Definition drop_empty (ts : list (list (option event))) : list (list (option event)) :=
+  filter (fun t => match t with [] => false | _ => true end) ts.
+Definition succs (c : config) : list config :=
+  let '(s, threads) := c in
+  let rs := progress s reactions in
+  let hs := heads (match rs with [] => true | _ => false end) [] threads in
+  map (fun '(oe, ts') => (match oe with Some e => step s e | None => s end, drop_empty ts')) hs
+  ++ map (fun s' => (s', threads)) rs.
+(* level-synchronous search over configurations, with duplicate elimination; returns the states at rest *)
+Fixpoint bfs (fuel : nat) (frontier : list config) (acc : list st) : list st :=
   match fuel with
-  | O => [s]
+  | O => acc ++ map fst frontier
   | S f =>
-      let rs := progress s reactions in
-      let hs := heads (match rs with [] => true | _ => false end) [] threads in
-      match hs, rs with
-      | [], [] => [s]
-      | _, _ =>
-          flat_map (fun '(oe, ts') => explore f (match oe with Some e => step s e | None => s end) ts') hs
-          ++ flat_map (fun s' => explore f s' threads) rs
+      let terms := filter (fun c => match succs c with [] => true | _ => false end) frontier in
+      let nexts := dedup (flat_map succs frontier) [] in
+      match nexts with
+      | [] => acc ++ map fst terms
+      | _ => bfs f nexts (acc ++ map fst terms)
       end
   end.
+Definition explore (fuel : nat) (s : st) (threads : list (list (option event))) : list st :=
+  bfs fuel [(s, drop_empty threads)] [].
 
 (* ------------------------------------------------------------------ phases (how the harness gets there) *)
 Inductive phase : Set :=
